@@ -294,12 +294,26 @@ def showRes : Except CallErr Unit → String
   | .ok () => "ok"
   | .error e => showCallErr e
 
-/-- `sink <ty> <geom> <script> <flush> <prefillhex> <ops>` -/
-def cmdSink (ty : Nat) (geom script flush prefill ops : String) : String :=
-  let (rows, cols) := parseGeom geom
-  let sink := Sink.new (keyOf prefill) (parseScript script) (if flush == "-" then none else some flush.toNat!)
+/-- `sink <ty> <geom> <script> <flush> <prefillhex> <ops> [front end]`: the builder of the
+front end over the scripted sink. Wrapper front ends (`map*`, `set*`) use type 0 and the
+default cache geometry (`MapBuilder::new` = `raw::Builder::new`); `set*` turns every call
+into `add`, `map*` into `insert` (an `add` becomes `insert k 0`); `*_iter` / `*_stream`
+are one `extend_*` call: the calls one by one until the first one that does not return
+`Ok`, whose result is the result of the whole call. Returns the output line and, when
+`finish` succeeded, the bytes the sink received after the prefill. -/
+def cmdSink (ty : Nat) (geom script flush prefill ops fe : String) : String × Option (Array UInt8) :=
+  let isSet := fe.startsWith "set"
+  let isMap := fe.startsWith "map"
+  let isBatch := fe.endsWith "_iter" || fe.endsWith "_stream"
+  let (rows, cols) := if isSet || isMap then (Gen.REGISTRY_ROWS, Gen.REGISTRY_COLS) else parseGeom geom
+  let ty := if isSet || isMap then 0 else ty
+  let calls := (parseCalls (if ops == "-" then "" else ops)).map fun c => match c with
+    | .ins k v => if isSet then Call.add k else Call.ins k v
+    | .add k => if isMap then Call.ins k 0 else Call.add k
+  let pre := keyOf prefill
+  let sink := Sink.new pre (parseScript script) (if flush == "-" then none else some flush.toNat!)
   match IOB.new sink ty rows cols with
-  | (cw, .error e) => s!"sink new={showCallErr e} | {showBytes cw.sink.held} | calls={cw.sink.calls}"
+  | (cw, .error e) => (s!"sink new={showCallErr e} | {showBytes cw.sink.held} | calls={cw.sink.calls}", none)
   | (_, .ok x) =>
     let rec go (x : IOB) (cs : List Call) (acc : List String) : IOB × List String × Bool :=
       match cs with
@@ -311,12 +325,18 @@ def cmdSink (ty : Nat) (geom script flush prefill ops : String) : String :=
         let s := s!"{showRes r}@{x'.bytesWritten}"
         match r with
         | .error (.io _) => (x', (s :: acc).reverse, false)
+        | .error _ => if isBatch then (x', (s :: acc).reverse, false) else go x' rest (s :: acc)
         | _ => go x' rest (s :: acc)
-    let (x, res, alive) := go x (parseCalls ops) []
-    if !alive then s!"sink new=ok | {",".intercalate res} | fin=skipped | {showBytes x.cw.sink.held} | calls={x.cw.sink.calls}"
+    let (x, res, alive) := go x calls []
+    -- one `extend_*` call has one result: that of the last call made (or `ok` for none)
+    let res := if isBatch then [res.getLast?.getD s!"ok@{x.bytesWritten}"] else res
+    if !alive then (s!"sink new=ok | {",".intercalate res} | fin=skipped | {showBytes x.cw.sink.held} | calls={x.cw.sink.calls}", none)
     else
       let (s, r) := x.intoInner
-      s!"sink new=ok | {",".intercalate res} | fin={showRes r} | {showBytes s.held} | calls={s.calls}"
+      let out := s!"sink new=ok | {",".intercalate res} | fin={showRes r} | {showBytes s.held} | calls={s.calls}"
+      match r with
+      | .ok _ => (out, some (s.held.toList.drop pre.length).toArray)
+      | _ => (out, none)
 
 def cmdCrc (chunks : String) : String :=
   let cs := (chunks.splitOn "|").map keyOf
@@ -480,7 +500,10 @@ def step (st : DrvState) (line : String) : DrvState × String :=
   | ["ops", kind, streams] => (st, cmdOps kind streams)
   | ["aut", a, w] => (st, cmdAut st a w)
   | "sink" :: ty :: geom :: script :: flush :: prefill :: rest =>
-    (st, cmdSink ty.toNat! geom script flush prefill (rest.headD ""))
+    -- after a successful finish the FST the sink received is the current one
+    match cmdSink ty.toNat! geom script flush prefill (rest.headD "") ((rest.drop 1).headD "raw") with
+    | (out, some bs) => ((openBytes st bs).1, out)
+    | (out, none) => (st, out)
   | ["crc", chunks] => (st, cmdCrc chunks)
   | "node" :: v :: last :: addr :: fin :: fout :: rest =>
     (st, cmdNode v.toNat! last.toNat! addr.toNat! (fin == "1") fout.toNat! (rest.headD ""))
